@@ -62,16 +62,51 @@ func h17All(nodes []hNode, start hNode, bad string) {
 				abs += "/" + pfx + ":" + s
 			}
 			check(start.e.Find(abs) == t.e, "the absolute prefixed path of a node finds that very node")
-			// one non-existent step, at every position
+			// one non-existent step, at every position: a name no node has, and the two
+			// near misses of the real step (a symbolic letter before it / after it)
 			for k := range ts {
-				p := ""
-				for j, s := range ts {
-					if j == k {
-						s = bad
+				for variant := 0; variant < 3; variant++ {
+					p := ""
+					for j, s := range ts {
+						if j == k {
+							switch variant {
+							case 0:
+								s = bad
+							case 1:
+								s = bad[2:] + s
+							case 2:
+								s = s + bad[2:]
+							}
+						}
+						p += "/" + pfx + ":" + s
 					}
-					p += "/" + pfx + ":" + s
+					// the near miss may happen to be the name of a real child there: then the path is
+					// not one with a non-existent step
+					if variant > 0 {
+						miss := bad[2:] + ts[k]
+						if variant == 2 {
+							miss = ts[k] + bad[2:]
+						}
+						pk := t.e
+						for up := len(ts) - 1; up >= k; up-- {
+							pk = pk.Parent
+						}
+						coincide := false
+						if pk != nil {
+							for name := range pk.Dir {
+								coincide = symOr(coincide, name == miss)
+							}
+							if pk.RPC != nil {
+								coincide = symOr(coincide, symOr(miss == "input", miss == "output"))
+							}
+						}
+						if coincide {
+							continue
+						}
+					}
+					got := start.e.Find(p)
+					check(got == nil, "a path with a step that names no child returns nothing")
 				}
-				check(start.e.Find(p) == nil, "a path with a step that names no child returns nothing")
 			}
 		}
 		if t.mod == start.mod {
